@@ -194,3 +194,47 @@ def adversarial_text(seed):
             return ADVERSARIAL[(h // 3) % len(ADVERSARIAL)]
         return ['Bob', 'Smith', '12 Main St', 'Mytown', '99999', 'Teacher'][(h // 3) % 6]
     return text
+
+
+def sequence_check():
+    """the order of the forms handed to `pdftk cat` is the forms' `sequence_no`: compare it with the "Attachment
+    Sequence No." printed in the bundled template of every form that has one (independent of the code)"""
+    import os
+    import re
+    import sys
+    from common import REPO, VERIF
+    sys.path.insert(0, os.path.join(VERIF, 'tools'))
+    import pdf_extract
+    from habutax import forms as hforms
+    probs, checked = [], 0
+    for year, classes in sorted(hforms.available_forms.items()):
+        for cls in classes:
+            # the template is named in the form's module (`pdf_file = os.path.join(os.path.dirname(__file__), 'f8959.pdf')`)
+            import inspect
+            try:
+                src_file = inspect.getsourcefile(cls)
+                names = set(re.findall(r"['\"]([\w\-]+\.pdf)['\"]", open(src_file).read()))
+            except Exception:  # noqa: BLE001
+                continue
+            if len(names) != 1:
+                continue
+            path = os.path.join(os.path.dirname(src_file), names.pop())
+            if not os.path.exists(path):
+                continue
+            try:
+                pdf = pdf_extract.PDF(open(path, 'rb').read())
+                af, _fields = pdf_extract.acroform_fields(pdf)
+                pk = pdf_extract.xfa_packets(pdf, af) if af else None
+            except Exception:  # noqa: BLE001  (C18 reports unreadable templates)
+                continue
+            if not pk:
+                continue
+            flat = re.sub(r'<[^>]+>', ' ', b' '.join(pk.values()).decode('utf-8', 'replace'))
+            printed = set(re.findall(r'Sequence\s+No\.?\s*(\d+)[A-Z]?', flat))
+            if len(printed) != 1:
+                continue
+            checked += 1
+            want = int(printed.pop())
+            if getattr(cls, 'sequence_no', None) != want:
+                probs.append((f'sequence:{year}:{cls.form_name}', f'{year} form {cls.form_name}: sequence_no = {getattr(cls, "sequence_no", None)!r} but the bundled {os.path.basename(path)} prints Attachment Sequence No. {want}: the filled forms are handed to pdftk in the wrong order'))
+    return probs, checked
